@@ -111,7 +111,10 @@ def gen_ctl(rng, n):
         if rng.random() < 0.65:
             out.append(None)
             continue
-        kind = int(rng.integers(3))
+        kind = int(rng.integers(4))
+        if kind == 3:
+            out.append("raise")
+            continue
         a = int(rng.integers(-3, 21)) if kind in (0, 2) else None
         b = int([-1, 0, 0, 1, 2, 5][int(rng.integers(6))]) if kind in (1, 2) else None
         out.append([a, b])
@@ -158,6 +161,25 @@ def solve_oracle(spec, ops, step_ticks, cb_ticks, obs, twin, min0, ctl=None):
                     if nonfinite(k + q + 1):
                         trip = q
                         break
+            raise_q = None
+            if o["cb"] and ctl is not None:
+                for q in range(m):
+                    if j + q < len(ctl) and ctl[j + q] == "raise":
+                        raise_q = q
+                        break
+            if raise_q is not None and (trip is None or raise_q < trip):
+                # the callback of iteration raise_q raises: records 0..raise_q exist, the exception propagates,
+                # and the stop-watch is left stopped showing the time inside solve() outside callbacks
+                if ob["outcome"] != "cbraise":
+                    return {**where, "fails": f"callback {raise_q} raised but solve() ended with {ob['outcome']}"}
+                if len(ob["rows"]) != raise_q + 1 or len(ob["cbs"]) != raise_q + 1 or ob["steps"] != k + raise_q + 1:
+                    return {**where, "fails": f"callback raised in iteration {raise_q}: {len(ob['rows'])} records, {len(ob['cbs'])} callback invocations, {ob['steps'] - k} steps"}
+                t = solve_time + sum(step_ticks[k : k + raise_q + 1])
+                if ob["elapsed"] != t or ob["running"]:
+                    return {**where, "fails": f"after the callback raised the timer reads {ob['elapsed']} (running: {ob['running']}), time inside solve() excluding callbacks is {t}"}
+                if ob["itnum"] != itnum + raise_q:
+                    return {**where, "fails": f"after the callback raised in iteration {raise_q} the counter is {ob['itnum']}, expected {itnum + raise_q}"}
+                return None
             done = m if trip is None else trip
             want_outcome = "ok" if trip is None else "nan"
             if ob["outcome"] != want_outcome:
